@@ -312,3 +312,86 @@ Section SegRender.
           cbn [map app]; rewrite IH1, IH2; split; reflexivity.
   Qed.
 End SegRender.
+
+(* ---------------- accounting ---------------- *)
+Lemma kind_overhead_sq t kd i g : kappa_of t i = g_gamma g ->
+  (kind_overhead t kd i == kind_mult kd g * kind_mult kd g)%Q.
+Proof.
+  intros H. destruct kd; cbn [kind_overhead kind_mult]; unfold left_wire_mult, right_wire_mult, both_wires_mult;
+    try reflexivity.
+  unfold gamma_or_1. rewrite H. destruct (g_gamma g); reflexivity.
+Qed.
+
+Lemma overhead_render t orig : forall c k P pre0,
+  orig = pre0 ++ c -> k = length pre0 -> incr_from k (map ginst P) ->
+  (forall gk, In gk P -> exists i, nth_error orig (ginst gk) = Some i /\ kappa_of t i = g_gamma (fst gk)) ->
+  (plan_overhead_from t (pfun P) k c == plan_gamma P * plan_gamma P)%Q.
+Proof.
+  induction c as [|i r IH]; intros k P pre0 Eo Ek Hinc HP.
+  - destruct P as [|[g kd] P]; [simpl; ring|]. exfalso.
+    destruct (HP (g, kd) (or_introl eq_refl)) as (i & Hi & _).
+    assert (Hlt : ginst (g, kd) < length orig) by (apply nth_error_Some; congruence).
+    destruct Hinc as [H1 _]. rewrite Eo, app_nil_r in Hlt. lia.
+  - assert (Eo' : orig = (pre0 ++ [i]) ++ r) by (now rewrite <- app_assoc).
+    assert (Ek' : S k = length (pre0 ++ [i])) by (rewrite app_length; simpl; lia).
+    assert (Hk : nth_error orig k = Some i).
+    { rewrite Eo, Ek, nth_error_app2, Nat.sub_diag by lia. reflexivity. }
+    cbn [plan_overhead_from].
+    assert (CASE : (exists g kd P', P = (g, kd) :: P' /\ g_inst g = k) \/ incr_from (S k) (map ginst P)).
+    { destruct P as [|[g kd] P']; [right; exact I|]. destruct Hinc as [H1 H2]. unfold ginst in H1; cbn [fst] in H1.
+      destruct (Nat.eq_dec (g_inst g) k) as [E|N]; [left; eauto|]. right. split; [unfold ginst; simpl; lia|exact H2]. }
+    destruct CASE as [(g & kd & P' & -> & Eg)|Hinc'].
+    + destruct Hinc as [_ H2]. unfold ginst in H2 at 1; cbn [fst] in H2. rewrite Eg in H2.
+      destruct (HP (g, kd) (or_introl eq_refl)) as (i0 & Hi0 & Hkap).
+      unfold ginst in Hi0; cbn [fst] in Hi0, Hkap. rewrite Eg, Hk in Hi0. inversion Hi0; subst i0.
+      assert (Hext : forall j, S k <= j -> pfun ((g, kd) :: P') j = pfun P' j)
+        by (intros j Hj; apply pfun_cons_neq; lia).
+      assert (Epf : pfun ((g, kd) :: P') k = kd) by (rewrite <- Eg; apply pfun_cons_eq).
+      assert (Eov : plan_overhead_from t (pfun ((g, kd) :: P')) (S k) r = plan_overhead_from t (pfun P') (S k) r).
+      { clear - Hext. revert Hext. generalize (S k). induction r as [|x r IHr]; intros n Hext; simpl; [reflexivity|].
+        rewrite (Hext n) by lia. f_equal. apply IHr. intros j Hj; apply Hext; lia. }
+      rewrite Eov, Epf. rewrite (IH (S k) P' (pre0 ++ [i])); auto.
+      * rewrite (kind_overhead_sq t kd i g Hkap). cbn [plan_gamma]. ring.
+      * intros gk Hin. apply HP. now right.
+    + rewrite (pfun_lt _ (S k) k Hinc') by lia. cbn [kind_overhead].
+      rewrite (IH (S k) P (pre0 ++ [i])); auto. ring.
+Qed.
+
+(* ---------------- metadata scan ---------------- *)
+Lemma scan_cuts_spec c : forall k0,
+  incr_from k0 (map snd (scan_cuts k0 c)) /\
+  forall kd j, In (kd, j) (scan_cuts k0 c) <-> (k0 <= j /\ marker_at c (j - k0) = Some kd).
+Proof.
+  induction c as [|x r IH]; intros k0.
+  - split; [exact I|]. intros kd j. split; [intros []|]. intros [_ H]. unfold marker_at in H.
+    destruct (j - k0); discriminate.
+  - destruct (IH (S k0)) as [I1 I2].
+    assert (Hshift : forall kd j, (S k0 <= j /\ marker_at r (j - S k0) = Some kd) <->
+                                  (k0 <= j /\ j <> k0 /\ marker_at (x :: r) (j - k0) = Some kd)).
+    { intros kd j. split.
+      - intros [H1 H2]. split; [lia|]. split; [lia|]. replace (j - k0) with (S (j - S k0)) by lia. exact H2.
+      - intros (H1 & H2 & H3). split; [lia|]. replace (j - k0) with (S (j - S k0)) in H3 by lia. exact H3. }
+    assert (Hhd : forall kd, marker_at (x :: r) (k0 - k0) = Some kd <->
+              ((is_qpd2 x = true /\ kd = GateCut) \/ (is_qpd2 x = false /\ is_cut_wire x = true /\ kd = WireCut))).
+    { intros kd. rewrite Nat.sub_diag. unfold marker_at; cbn [nth_error].
+      destruct (is_qpd2 x), (is_cut_wire x); split; intros H; try (inversion H; subst; tauto);
+        destruct H as [[? ?]|(? & ? & ?)]; subst; try discriminate; reflexivity. }
+    cbn [scan_cuts].
+    destruct (iop x) eqn:Eop;
+      try (split; [eapply incr_from_weaken; [|exact I1]; lia|];
+           intros kd j; rewrite I2, Hshift; split; [tauto|]; intros [H1 H2]; split; [exact H1|]; split; [|exact H2];
+           intros ->; apply Hhd in H2; unfold is_qpd2, is_cut_wire in H2; rewrite Eop in H2;
+           destruct H2 as [[? ?]|(? & ? & ?)]; discriminate).
+    + (* CutWire *)
+      split; [simpl; split; [lia|exact I1]|]. intros kd j. cbn [In]. rewrite I2, Hshift. split.
+      * intros [H|H]; [inversion H; subst; split; [lia|]; apply Hhd; right; unfold is_qpd2, is_cut_wire; rewrite Eop; auto|tauto].
+      * intros [H1 H2]. destruct (Nat.eq_dec j k0) as [->|N]; [|right; tauto].
+        left. apply Hhd in H2. unfold is_qpd2, is_cut_wire in H2. rewrite Eop in H2.
+        destruct H2 as [[? ?]|(_ & _ & ->)]; [discriminate|reflexivity].
+    + (* Qpd2 *)
+      split; [simpl; split; [lia|exact I1]|]. intros kd j. cbn [In]. rewrite I2, Hshift. split.
+      * intros [H|H]; [inversion H; subst; split; [lia|]; apply Hhd; left; unfold is_qpd2; rewrite Eop; auto|tauto].
+      * intros [H1 H2]. destruct (Nat.eq_dec j k0) as [->|N]; [|right; tauto].
+        left. apply Hhd in H2. unfold is_qpd2, is_cut_wire in H2. rewrite Eop in H2.
+        destruct H2 as [[_ ->]|(? & _ & _)]; [reflexivity|discriminate].
+Qed.
